@@ -751,3 +751,52 @@ pub fn load_replay(path: &std::path::Path) -> Result<(String, String, Value), St
 pub fn from_case<T: DeserializeOwned>(case: &Value) -> Result<T, Fail> {
     serde_json::from_value(case.clone()).map_err(|e| Fail::new("replay-format", format!("cannot parse replay case: {}", e)))
 }
+
+
+// ---------------------------------------------------------------------------------------------
+// A reader that delivers the same bytes in short reads (at most `step` bytes per call).
+// The decode entry points are generic over `Read`; what they return must not depend on how the
+// reader happens to chunk the bytes.
+// ---------------------------------------------------------------------------------------------
+
+pub struct Chunked<'a> {
+    data: &'a [u8],
+    pos: u64,
+    step: usize,
+}
+
+impl<'a> Chunked<'a> {
+    pub fn new(data: &'a [u8], step: usize) -> Self {
+        Chunked { data, pos: 0, step: step.max(1) }
+    }
+    pub fn at(data: &'a [u8], step: usize, pos: u64) -> Self {
+        Chunked { data, pos, step: step.max(1) }
+    }
+}
+
+impl std::io::Read for Chunked<'_> {
+    fn read(&mut self, buf: &mut [u8]) -> std::io::Result<usize> {
+        let start = (self.pos as usize).min(self.data.len());
+        let n = buf.len().min(self.step).min(self.data.len() - start);
+        buf[..n].copy_from_slice(&self.data[start..start + n]);
+        self.pos += n as u64;
+        Ok(n)
+    }
+}
+
+impl std::io::Seek for Chunked<'_> {
+    fn seek(&mut self, from: std::io::SeekFrom) -> std::io::Result<u64> {
+        let new = match from {
+            std::io::SeekFrom::Start(p) => p as i128,
+            std::io::SeekFrom::End(d) => self.data.len() as i128 + d as i128,
+            std::io::SeekFrom::Current(d) => self.pos as i128 + d as i128,
+        };
+        if new < 0 {
+            return Err(std::io::Error::new(std::io::ErrorKind::InvalidInput, "seek before start"));
+        }
+        self.pos = new as u64;
+        Ok(self.pos)
+    }
+}
+
+pub const CHUNK_STEPS: [usize; 4] = [1, 5, 27, 113];
